@@ -125,3 +125,38 @@ def parse_line(text):
             raise LineProtocolError("invalid timestamp %r" % raw)
         timestamp = int(raw)
     return measurement, tags, fields, timestamp
+
+
+# Reference vectors from the InfluxDB 1.x line protocol documentation (tutorial + "special characters" section):
+# the parser is checked against them whenever it is used as an oracle.
+_VECTORS = [
+    ('weather,location=us-midwest temperature=82 1465839830100400200\n',
+     ("weather", {"location": "us-midwest"}, {"temperature": ("float", 82.0)}, 1465839830100400200)),
+    ('weather,location=us-midwest temperature="too warm" 1465839830100400200\n',
+     ("weather", {"location": "us-midwest"}, {"temperature": ("string", "too warm")}, 1465839830100400200)),
+    ('weather,location=us-midwest too_hot=true\n', ("weather", {"location": "us-midwest"}, {"too_hot": ("bool", True)}, None)),
+    ('weather,location=us-midwest temperature=82i\n', ("weather", {"location": "us-midwest"}, {"temperature": ("int", 82)}, None)),
+    ('weather,location=us\\,midwest temperature=82\n', ("weather", {"location": "us,midwest"}, {"temperature": ("float", 82.0)}, None)),
+    ('weather,location=us-midwest temp\\=rature=82\n', ("weather", {"location": "us-midwest"}, {"temp=rature": ("float", 82.0)}, None)),
+    ('weather,location\\ place=us-midwest temperature=82\n', ("weather", {"location place": "us-midwest"}, {"temperature": ("float", 82.0)}, None)),
+    ('wea\\,ther,location=us-midwest temperature=82\n', ("wea,ther", {"location": "us-midwest"}, {"temperature": ("float", 82.0)}, None)),
+    ('wea\\ ther,location=us-midwest temperature=82\n', ("wea ther", {"location": "us-midwest"}, {"temperature": ("float", 82.0)}, None)),
+    ('weather,location=us-midwest temperature="too\\"hot\\""\n', ("weather", {"location": "us-midwest"}, {"temperature": ("string", 'too"hot"')}, None)),
+    ('weather,location=us-midwest temperature_str="too hot/cold"\n', ("weather", {"location": "us-midwest"}, {"temperature_str": ("string", "too hot/cold")}, None)),
+    ('weather,location=us-midwest temperature_str="too hot\\cold"\n', ("weather", {"location": "us-midwest"}, {"temperature_str": ("string", "too hot\\cold")}, None)),
+    ('weather,location=us-midwest temperature_str="too hot\\\\cold"\n', ("weather", {"location": "us-midwest"}, {"temperature_str": ("string", "too hot\\cold")}, None)),
+    ('"weather",location=us-midwest temperature=82,humidity=71\n', ('"weather"', {"location": "us-midwest"}, {"temperature": ("float", 82.0), "humidity": ("float", 71.0)}, None)),
+]
+
+
+def selfcheck():
+    for text, want in _VECTORS:
+        got = parse_line(text)
+        if got != want:
+            raise AssertionError("reference line-protocol parser disagrees with the documented example %r: %r != %r" % (text, got, want))
+    for bad in ["weather temperature=82", "weather,location temperature=82\n", "weather \n", 'weather t="open\n', "# comment\n", "weather t=1 x\n"]:
+        try:
+            parse_line(bad)
+        except LineProtocolError:
+            continue
+        raise AssertionError("reference line-protocol parser accepts malformed %r" % bad)
